@@ -34,7 +34,12 @@ def main():
                  'quant-short': 6, 'quant-ident': 6, 'cast-cond': 6, 'regex-rewrite': 3}
         tpl = templates.thin(tpl, quota, rnd)
     ck.extra['templates'] = len(tpl)
-    ck.run_units([('@cache-keys', None)] + [('@conditions', n) for n in range(1, 5)] + [(name, templates.render(rule)) for _, name, rule in tpl], run_unit)
+    # optimise() and validate() take no document: for a given rule text they are one concrete computation, run natively
+    # (catch_unwind) for *every* template of the tier under all 16 switch combinations, not only for the thinned set
+    every = [(name, templates.render(rule)) for _, name, rule in templates.select(ck.tier, ck.seed)]
+    ck.extra['templates_optimise_sweep'] = len(every)
+    sweep = [('@optimise-sweep', every[i::6]) for i in range(6)]
+    ck.run_units(sweep + [('@cache-keys', None)] + [('@conditions', n) for n in range(1, 5)] + [(name, templates.render(rule)) for _, name, rule in tpl], run_unit)
     ck.finish('panic reachability on real solver MIR for every accepted template rule x optimiser output, documents symbolic')
 
 
@@ -44,6 +49,31 @@ def run_unit(ck, unit):
         # Cache::find's expect()/index on the synthetic matrix keys: every column index a matrix can have
         import C16
         C16.cache_keys(ck)
+        return
+    if name == '@optimise-sweep':
+        br = ck.bridge()
+        for nm, y in yaml:
+            base = br.call(cmd='load', yaml=y, opts=None)
+            if 'panic' in base:
+                continue        # loading is C04's business
+            if not base.get('ok'):
+                continue
+            for opts in artifacts.OPT_COMBOS:
+                ck.obligations += 1
+                r = br.call(cmd='load', yaml=y, opts=opts)
+                if 'panic' in r:
+                    p = ck.write_replay(safe(nm) + '_optimise_panic_' + opts_label(opts), {'rule': y, 'opts': opts, 'native': r})
+                    ck.violations.append((p, 'optimise(%s) panicked on the accepted rule %s: %s' % (opts_label(opts), nm, r['panic'][:200])))
+                    break
+                ck.discharged += 1
+            ck.obligations += 1
+            r = br.call(cmd='validate', yaml=y)
+            if 'panic' in r:
+                p = ck.write_replay(safe(nm) + '_validate_panic', {'rule': y, 'native': r})
+                ck.violations.append((p, 'validate() panicked on the accepted rule %s: %s' % (nm, r['panic'][:200])))
+            else:
+                ck.discharged += 1
+            ck.replays_ok += 17
         return
     if name == '@conditions':
         # (a) conditions derived from the parser's own paths: accepted ones must have predicate operands (C05 run), and a rule
